@@ -97,7 +97,7 @@ func onceGuards(c *an.Ctx, rule string) {
 			}
 			for _, l := range an.Loops(fn) {
 				op := l.RangeOperand()
-				if op == nil || an.FieldProv(op) != "ExecutionContext."+f.field {
+				if op == nil || !has(hookRoles(p, op), f.field) {
 					continue
 				}
 				n++
@@ -430,13 +430,40 @@ func downRules(c *an.Ctx, r *runnerRoles, rule string) {
 				}
 				return false
 			}
-			all, w := an.OnAllPathsToExit(call, isFinish, nil)
-			// or a Finish deferred before the call
-			an.EachInstr(fn, func(x ssa.Instruction) {
-				if d, ok := x.(*ssa.Defer); ok && isFinish(d) && an.Dominates(d, call) {
-					all = true
+			var w *ssa.BasicBlock
+			var finishAfter func(at ssa.Instruction, depth int) bool
+			finishAfter = func(at ssa.Instruction, depth int) bool {
+				f := at.Parent()
+				ok, ww := an.OnAllPathsToExit(at, isFinish, nil)
+				// or a Finish deferred before the call
+				an.EachInstr(f, func(x ssa.Instruction) {
+					if d, isD := x.(*ssa.Defer); isD && isFinish(d) && an.Dominates(d, at) {
+						ok = true
+					}
+				})
+				if ok {
+					return true
 				}
-			})
+				if depth == 0 {
+					w = ww
+				}
+				// the function leaves it to its callers: every call of it is followed by Finish in the same way
+				if depth >= 2 || f.Parent() != nil {
+					return false
+				}
+				sites := p.CallSitesOf(f)
+				if len(sites) == 0 {
+					return false
+				}
+				for _, s2 := range sites {
+					in2, isIn := s2.(ssa.Instruction)
+					if _, isCall := s2.(*ssa.Call); !isCall || !isIn || !finishAfter(in2, depth+1) {
+						return false
+					}
+				}
+				return true
+			}
+			all := finishAfter(call, 0)
 			where := ""
 			if w != nil {
 				where = p.Pos(w.Instrs[len(w.Instrs)-1].Pos())
@@ -632,4 +659,107 @@ func waitedGoroutine(p *an.Prog, er *execRoles, fn *ssa.Function, run *ssa.Call)
 	}
 	okWait, _ := an.OnAllPathsToExit(g, isRecv, nil)
 	return okWait
+}
+
+// hookRoles names the service-command list(s) of an execution context that v may be: "up", "down", "before",
+// "after". The lists are what the context's constructor stores from its parameters of those names — in a field of
+// its own each, or in one slot each of an array field; a slot selected by a parameter of the enclosing function is
+// resolved at that function's call sites.
+func hookRoles(p *an.Prog, v ssa.Value) []string {
+	if fp := an.FieldProv(v); strings.HasPrefix(fp, "ExecutionContext.") {
+		switch name := strings.TrimPrefix(fp, "ExecutionContext."); name {
+		case "up", "down", "before", "after":
+			return []string{name}
+		}
+	}
+	ctor := p.Func("pkg/runner", "", "NewExecutionContext")
+	if ctor == nil {
+		return nil
+	}
+	// slots[field][index] = parameter name
+	slots := map[string]map[int64]string{}
+	an.EachInstr(ctor, func(in ssa.Instruction) {
+		st, ok := in.(*ssa.Store)
+		if !ok {
+			return
+		}
+		ia, ok := st.Addr.(*ssa.IndexAddr)
+		if !ok {
+			return
+		}
+		k, isC := an.ConstInt(ia.Index)
+		prm, isP := an.Resolve(st.Val).(*ssa.Parameter)
+		if !isC || !isP {
+			return
+		}
+		field := ""
+		switch b := ia.X.(type) {
+		case *ssa.FieldAddr:
+			field = an.TypeField(b)
+		case *ssa.Alloc:
+			// a local array literal stored whole into the field
+			if b.Referrers() != nil {
+				for _, r := range *b.Referrers() {
+					if u, ok := r.(*ssa.UnOp); ok && u.Op == token.MUL && u.Referrers() != nil {
+						for _, r2 := range *u.Referrers() {
+							if s2, ok := r2.(*ssa.Store); ok && s2.Val == ssa.Value(u) {
+								if fa, ok := s2.Addr.(*ssa.FieldAddr); ok {
+									field = an.TypeField(fa)
+								}
+							}
+						}
+					}
+				}
+			}
+		}
+		if field == "" {
+			return
+		}
+		if slots[field] == nil {
+			slots[field] = map[int64]string{}
+		}
+		slots[field][k] = prm.Name()
+	})
+	var out []string
+	for _, src := range an.Sources(v) {
+		u, ok := src.(*ssa.UnOp)
+		if !ok || u.Op != token.MUL {
+			continue
+		}
+		ia, ok := u.X.(*ssa.IndexAddr)
+		if !ok {
+			continue
+		}
+		fa, ok := ia.X.(*ssa.FieldAddr)
+		if !ok || slots[an.TypeField(fa)] == nil {
+			continue
+		}
+		tab := slots[an.TypeField(fa)]
+		if k, isC := an.ConstInt(ia.Index); isC {
+			if n, ok := tab[k]; ok {
+				out = append(out, n)
+			}
+			continue
+		}
+		if prm, isP := an.Resolve(ia.Index).(*ssa.Parameter); isP && prm.Parent() != nil {
+			fn := prm.Parent()
+			idx := -1
+			for i, q := range fn.Params {
+				if q == prm {
+					idx = i
+				}
+			}
+			for _, site := range p.CallSitesOf(fn) {
+				if idx < 0 || idx >= len(site.Common().Args) {
+					continue
+				}
+				if k, isC := an.ConstInt(site.Common().Args[idx]); isC {
+					if n, ok := tab[k]; ok {
+						out = append(out, n)
+					}
+				}
+			}
+		}
+	}
+	return dedup(out)
 }
